@@ -159,7 +159,13 @@ impl ast::Visit for Visitor<'_, '_> {
                 }
             },
 
-            ast::StmtKind::CallSub { .. } => unimplemented!("need to check arg types against signature"),
+            ast::StmtKind::CallSub { func, .. } => {
+                // (nothing downstream implements these yet)
+                self.errors.set(self.ctx.emitter.emit(error!(
+                    message("unsupported call syntax"),
+                    primary(func, "calls written with '@' or 'async' are not implemented"),
+                )));
+            },
 
             ast::StmtKind::InterruptLabel { .. } => {},
             ast::StmtKind::AbsTimeLabel { .. } => {},
